@@ -18,6 +18,28 @@ sys.exit(replay.replay_form(json.loads(r\'\'\'{payload}\'\'\')))
 '''
 
 
+RERUN_TMPL = '''#!/verif/.venv/bin/python
+"""Replay: re-run the analysis of this one case on what /repo's compiler emits now and report
+whether the violation with this key is found again (structural facts of the generated text have no
+separate concrete input)."""
+import sys, json
+sys.path[:0] = ["/verif", "/repo"]
+from vlib import driver
+sys.exit(driver.rerun(json.loads(r\'\'\'{payload}\'\'\')))
+'''
+
+
+def rerun(p):
+    r = _call(p["mod"], p["fn"], p["name"], p["spec"])
+    hit = [v for v in r.get("violations", []) if v["key"] == p["key"]]
+    for v in (hit or r.get("violations", []))[:3]:
+        print(v["key"], "::", v["what"])
+    for h in r.get("harness", [])[:2]:
+        print("harness:", h[:300])
+    print("REPRODUCED" if hit else "not reproduced on this tree")
+    return 1 if hit else 0
+
+
 def _call(fn_mod, fn_name, name, spec):
     import importlib
 
@@ -84,11 +106,12 @@ def run_cases(chk: Check, fn_mod: str, fn_name: str, names, spec_for, jobs: int 
                 del live[n]
         time.sleep(0.02)
     for n in names:
-        merge(chk, results[n])
+        spec = spec_for(n) if callable(spec_for) else spec_for
+        merge(chk, results[n], (fn_mod, fn_name, n, spec))
     return results
 
 
-def merge(chk: Check, r: dict):
+def merge(chk: Check, r: dict, origin=None):
     chk.merge_queries(r.get("queries", {}), r.get("solver_s", 0.0))
     chk.programs += 1
     chk.cases.append(r.get("name"))
@@ -111,6 +134,8 @@ def merge(chk: Check, r: dict):
         src = None
         if v.get("replay") is not None:
             src = REPLAY_TMPL.format(payload=json.dumps(v["replay"], default=str))
+        elif origin is not None:
+            src = RERUN_TMPL.format(payload=json.dumps({"mod": origin[0], "fn": origin[1], "name": origin[2], "spec": origin[3], "key": v["key"]}, default=str))
         chk.violation(v["key"], v["what"], src)
     for k, val in r.get("extra", {}).items():
         if isinstance(val, (int, float)):
